@@ -119,7 +119,21 @@ func runNotif(seed int64, histories, steps int, out *Emitter) {
 			t        int64
 		}
 		var log []sent
+		qr := rand.New(rand.NewSource(seed*7919 + int64(hi) + 31))
 		for i := 0; i < steps; i++ {
+			if restartsOn && qr.Intn(150) == 0 {
+				// the network restarts from its own exported genesis (and runs its first block)
+				pre := c.notifAbs()
+				e, p := c.Restart(6 * time.Second)
+				if e != "" || p != nil {
+					out.Emit(map[string]interface{}{"mod": "panic", "where": "restart", "hist": hi, "i": i, "h": c.H, "panic": fmt.Sprint(e, p)})
+					break
+				}
+				post := c.notifAbs()
+				out.Emit(map[string]interface{}{"mod": "notif", "hist": hi, "i": i, "h": c.H, "now": c.T.UnixMicro(), "pre": pre, "op": "restart", "ok": true, "post": post,
+					"inboxes": c.inboxesJ(actors), "all": c.allNotifsJ(), "actors": actors})
+				out.Count("notif.restart", true)
+			}
 			if r.Intn(4) == 0 {
 				dt := []time.Duration{time.Microsecond, time.Millisecond, 6 * time.Second, 6 * time.Second}[r.Intn(4)]
 				if p := c.NextBlock(dt); p != nil {
